@@ -67,6 +67,8 @@ Definition w_s_offpre : Z := Z.min (wk "IndexError//#0" Generated.fortran_wrappe
 Definition w_s_offpost : Z := Z.max (wk "IndexError//#0" Generated.fortran_wrapper_solve_keyed) (wk "IndexError//#1" Generated.fortran_wrapper_solve_keyed).
 Definition w_s_skip : Z := wk "/skip/SKIPPED#0" Generated.fortran_wrapper_solve_keyed.                  (* 22 *)
 Definition w_e_index : list Z := Generated.fortran_wrapper_evaluate_index_codes.   (* (11, 12, 13, 14) -> IndexError *)
+Definition w_t_index : list Z := Generated.fortran_wrapper_solve_t_index_codes.    (* the same tuple in solve_t ... *)
+Definition w_s_index : list Z := Generated.fortran_wrapper_solve_index_codes.      (* ... and in solve (fix 1354783) *)
 
 (* INTENT(OUT) `iteration` is never assigned on the early returns of solve_t; the ctypes adapter presets the cell to this
    value.  No wrapper path stores it. *)
@@ -159,7 +161,7 @@ Section FSolve.
     | inl v0 =>
         let cur := col_of v0 cv index in
         if (ec =? c_ec_raise) && negb (all_finite cur) then mkFout v0 false undef_iter c_pre_existing
-        else t_loop fm ec min_it max_it tl cv index (Z.to_nat max_it) 1 v0 cur (-1)
+        else t_loop fm ec min_it max_it tl cv index (Z.to_nat max_it) 1 v0 cur 0       (* error_code = 0 before the DO loop (fix 131915c) *)
     end.
 
   (* subroutine solve: per-period results (converged, iteration, error_code); entries of periods never reached stay
@@ -170,7 +172,9 @@ Section FSolve.
     | [] => (v, [])
     | t :: r =>
         let o := t_solve_t fm v t min_it max_it tl offset cv ec in
-        let stop := if fo_code o =? 0 then negb (fo_conv o) && (fc =? c_fail_raise) else ec =? c_ec_raise in
+        let stop := if fo_code o =? 0 then negb (fo_conv o) && (fc =? c_fail_raise)
+                    else if (c_below <=? fo_code o) && (fo_code o <=? c_leads) then true        (* indexing errors always stop (fix 1354783) *)
+                    else ec =? c_ec_raise in
         let here := ((fo_code o =? 0) && fo_conv o, fo_iter o, fo_code o) in
         if stop then (fo_vals o, here :: map (fun _ => (false, -1, -1)) r)
         else let '(v', l) := t_solve_loop fm (fo_vals o) r min_it max_it tl offset cv fc ec in (v', here :: l)
@@ -203,6 +207,8 @@ Section FSolve.
       match py_pos n t with
       | None => (s, Raise IndexError)                       (* t outside the span: NumPy's IndexError (outside every property's scope) *)
       | Some p =>
+        (* a period without room for the instance's lags / leads: IndexError before anything is copied (fix 1354783) *)
+        if negb (feasible d n p) then (s, Raise IndexError) else
         let pre : vals + exn :=
           if offset o =? 0 then inl (vals_of s)
           else let q := Z.of_nat p + offset o in
@@ -227,6 +233,7 @@ Section FSolve.
             then (stampz s (fo_vals r) p ErrorSt (fo_iter r), Raise (SolutionError None))
             else if (fo_code r =? w_t_skip) && is_skip (errors o)
             then (stampz s (fo_vals r) p Skipped (fo_iter r), Ret false)
+            else if existsb (Z.eqb (fo_code r)) w_t_index then (s1, Raise IndexError)        (* compiled lags / leads larger than the instance's *)
             else (s1, Raise FortranEngineError)
         end
       end
@@ -246,8 +253,22 @@ Section FSolve.
         else if c =? w_s_offpre then (s, Raise IndexError)
         else if c =? w_s_offpost then (s, Raise IndexError)
         else if (c =? w_s_skip) && is_skip (errors o) then w_results o fr ps' rs' (stampz s (vals_of s) p Skipped it) (acc ++ [false])
+        else if existsb (Z.eqb c) w_s_index then (s, Raise IndexError)
         else (s, Raise FortranEngineError)
     | _, _ => (s, Ret acc)
+    end.
+
+  (* the periods of solve(start=, end=): a label GIVEN by the caller has been looked up (Some position; the lookup itself is the
+     subject of C05); the defaults are positions already — `lags` and `len(span) - 1 - leads` of the instance — with IndexError
+     when the span is too short for them (SolverMixin.iter_periods since 7cd6323, FortranEngine.solve since 084a032) *)
+  Definition sel_positions (d : mdesc) (n : nat) (start stop : option nat) : list nat + exn :=
+    match (match start with Some a => inl a | None => if (n <=? lags d)%nat then inr IndexError else inl (lags d) end) with
+    | inr e => inr e
+    | inl a =>
+        match (match stop with Some b => inl b | None => if (n <=? leads d)%nat then inr IndexError else inl (n - 1 - leads d)%nat end) with
+        | inr e => inr e
+        | inl b => inl (seq a (S b - a))
+        end
     end.
 
   (* FortranEngine.solve(start=, end=, ...) once start / end have been located: ps = the positions start..end *)
@@ -260,6 +281,14 @@ Section FSolve.
                                       (min_iter o) (max_iter o) (tol o) (offset o) (cv_of d) fc ec in
         w_results o (match fl with FRaise => true | _ => false end) ps rs (setvals s v') []
     | _, _ => (s, Raise KeyError)                          (* self._FAILURE_OPTIONS[failures] / self._ERROR_OPTIONS[errors] *)
+    end.
+
+  Definition w_solve_se (fm : fmod) (d : mdesc) (o : opts) (fl : failmode) (start stop : option nat) (s : mstate)
+    : mstate * outcome (list bool) :=
+    if max_iter o <? min_iter o then (s, Raise ValueError) else
+    match sel_positions d (List.length (status s)) start stop with
+    | inr e => (s, Raise e)
+    | inl ps => w_solve fm d o fl ps s
     end.
 
   (* ------------------------------------------------------------------ the pure-Python class: SolverMixin.solve *)
@@ -277,6 +306,12 @@ Section FSolve.
     end.
   Definition py_solve (d : mdesc) (o : opts) (ps : list nat) (s : mstate) : mstate * outcome (list bool) :=
     if max_iter o <? min_iter o then (s, Raise ValueError) else py_solve_loop d o ps s [].
+  Definition py_solve_se (d : mdesc) (o : opts) (start stop : option nat) (s : mstate) : mstate * outcome (list bool) :=
+    if max_iter o <? min_iter o then (s, Raise ValueError) else
+    match sel_positions d (List.length (status s)) start stop with
+    | inr e => (s, Raise e)
+    | inl ps => py_solve d o ps s
+    end.
 
 End FSolve.
 
